@@ -34,7 +34,7 @@ REQUIRED_BUCKETS = {"quick": ["op:+", "op:*", "op:@", "nested:product-in-sum", "
                               "no-sld-parameter-in-mixture", "magnetic:no-positive-component",
                               "precision:single", "magnetic:bystander-with-direction-angles",
                               "dispersity:more-distributions-than-one-kernel-loops", "component-scale:zero",
-                              "component-scale:negative", "component-scale:tiny"]}
+                              "component-scale:negative", "component-scale:tiny", "bare-structure-factor-component"]}
 REQUIRED_BUCKETS["thorough"] = REQUIRED_BUCKETS["quick"]
 
 SFACTORS = ["hardsphere", "hayter_msa", "squarewell", "stickyhardsphere"]
@@ -105,6 +105,10 @@ def gen_expr(rng, force=None):
         terms = [[nos[int(rng.integers(len(nos)))] for _ in t] for t in terms]
         terms[0][0] = disp[int(rng.integers(len(disp)))]
         return terms
+    if force.get("bareS"):
+        # a bare structure factor as one component of the sum / one factor of a product
+        terms[-1][-1] = SFACTORS[int(rng.integers(4))]
+        return terms
     if force.get("manypd"):
         # every component with two size distributions: more distributions in the whole expression than one kernel
         # has loops for, each component inside its own budget
@@ -131,6 +135,7 @@ def gen_cases(tier, seed):
               {"single": True, "shape": ["L", "L"]}, {"mag": "all", "shape": ["L", "L", "L"]},
               {"nosld": True, "shape": ["L", "L"]}, {"nosld": True, "shape": ["LL"]}, {"nosld": True, "shape": ["L", "LL"]},
               {"empty": True, "shape": ["L", "L"]}, {"empty": True, "shape": ["L", "L", "L"]}, {"empty": True, "shape": ["LL", "L"]},
+              {"bareS": True, "shape": ["L", "L"]}, {"bareS": True, "shape": ["LL", "L"]}, {"bareS": True, "shape": ["L", "LL"]},
               {"manypd": True, "shape": ["L", "L", "L"]}, {"manypd": True, "shape": ["LL", "L"]}, {"manypd": True, "shape": ["LLL"]}]
     for k in range(n):
         cases.append({"id": "expr/%04d" % k, "k": k, "seed": seed, "force": forces[k % len(forces)],
@@ -531,6 +536,8 @@ def run_case(case, rec):
         rec.bucket("magnetic")
     for row in leaves:
         for f, i, lp, tags in row:
+            if i.structure_factor:
+                rec.bucket("bare-structure-factor-component")
             if any(p.length > 1 for p in i.parameters.kernel_parameters):
                 rec.bucket("vector-component")
             if sas.is_python(i) if "@" not in f else False:
